@@ -259,19 +259,77 @@ def _run_g4(spec):
     return col.result()
 
 
+# --------------------------------------------------------------------------
+# state carried between calls: one transformer object used for a sequence of graphs
+
+
+def check_reuse(srcs):
+    """One SCFG2ASTTransformer object regenerates a sequence of different
+    functions; every output must be the text a fresh transformer gives for the
+    same graph.  -> (status, sig, msg, info)"""
+    from numba_scfg.core.datastructures.ast_transforms import AST2SCFG, SCFG2ASTTransformer
+
+    shared = SCFG2ASTTransformer()
+    done = 0
+    for i, src in enumerate(srcs):
+        try:
+            scfg = AST2SCFG(src)
+            scfg.restructure()
+            fresh = ast.unparse(ast.fix_missing_locations(SCFG2ASTTransformer().transform(original=ast.parse(src).body[0], scfg=scfg)))
+        except Exception as e:
+            if not library_raised(e):
+                raise
+            continue  # refusals and internal errors of a single run are judged by the main leg
+        try:
+            reused = ast.unparse(ast.fix_missing_locations(shared.transform(original=ast.parse(src).body[0], scfg=scfg)))
+        except Exception as e:
+            if not library_raised(e):
+                raise
+            return "fail", "C10:G-reuse", f"a transformer object that already regenerated {done} other function(s) raised {type(e).__name__}: {e} on function #{i} (a fresh one succeeds)", {}
+        if reused != fresh:
+            return "fail", "C10:G-reuse", f"a transformer object that already regenerated {done} other function(s) emits different code for function #{i} than a fresh transformer", {}
+        done += 1
+    return "ok", None, "", dict(reused=done)
+
+
+def _run_reuse(spec):
+    _, seed, shard, examples = spec
+    col = Collector()
+    from vpbt import gen_programs as gp
+
+    @hseed(h64(("c10reuse", seed, shard)))
+    @settings(max_examples=examples, database=None, deadline=None, phases=[Phase.generate], suppress_health_check=list(HealthCheck))
+    @given(srcs=st.lists(gp.programs(dict(for_tuple_target=False), max_depth=3), min_size=2, max_size=4))
+    def t(srcs):
+        status, sig, msg, info = check_reuse(srcs)
+        col.count("reuse_" + status)
+        col.count("reuse_functions", info.get("reused", 0))
+        if status == "fail":
+            col.fail(sig, msg, dict(sequence=list(srcs)), sum(len(x) for x in srcs))
+        col.case(("reuse", tuple(srcs)), sum(len(x) for x in srcs), info.get("reused", 0) >= 2, sample=dict(sequence=list(srcs), status=status), classes=["reuse"])
+
+    t()
+    return col.result()
+
+
 def run(spec):
     if spec[0] == "g4":
         return _run_g4(spec)
+    if spec[0] == "reuse":
+        return _run_reuse(spec)
     return _prun(spec)
 
 
 def plan(tier, seed):
     if tier == "quick":
-        return _pplan(tier, seed, quick=(150, 0, 0, 40, 1)) + [("g4", seed, s, 120, 10) for s in range(16)]
-    return _pplan(tier, seed, thorough=(2000, 0, 0, 300, 2)) + [("g4", seed, s, 1500, 16) for s in range(32)]
+        return _pplan(tier, seed, quick=(150, 0, 0, 40, 1)) + [("g4", seed, s, 120, 10) for s in range(16)] + [("reuse", seed, s, 40) for s in range(8)]
+    return _pplan(tier, seed, thorough=(2000, 0, 0, 300, 2)) + [("g4", seed, s, 1500, 16) for s in range(32)] + [("reuse", seed, s, 600) for s in range(16)]
 
 
 def replay(inp):
+    if "sequence" in inp:
+        status, sig, msg, _ = check_reuse(inp["sequence"])
+        return [(sig, msg)] if status == "fail" else []
     if "graph" in inp:
         status, sig, msg, _ = check_g4(gg.graph_from_json(inp["graph"]))
         return [(sig, msg)] if status == "fail" else []
@@ -279,6 +337,17 @@ def replay(inp):
 
 
 def shrink(fail):
+    if "sequence" in fail["replay"]:
+        seq = list(fail["replay"]["sequence"])
+        changed = True
+        while changed and len(seq) > 2:
+            changed = False
+            for i in range(len(seq)):
+                cand = seq[:i] + seq[i + 1 :]
+                if len(cand) >= 2 and check_reuse(cand)[0] == "fail":
+                    seq, changed = cand, True
+                    break
+        return dict(fail, replay=dict(sequence=seq))
     if "graph" in fail["replay"]:
         from vpbt.graph_checks import generic_shrink
 
